@@ -204,7 +204,7 @@ func (s *c02Seq) seed() {
 // step performs one derived operation; returns false after a violation.
 func (s *c02Seq) step() bool {
 	r := s.r
-	switch r.Intn(30) {
+	switch r.Intn(31) {
 	case 0, 1, 2, 3:
 		if v := s.pick(isSeqN); v != nil {
 			n := 1 + r.Intn(2)
@@ -350,6 +350,20 @@ func (s *c02Seq) step() bool {
 		if a := s.pick(isCollN); a != nil {
 			b := s.pick(isCollN)
 			return s.bind(fmt.Sprintf("[%s {:in %s} (list %s)]", a.name, b.name, a.name), "nest", false)
+		}
+	case 29:
+		// per-element results must not share storage: a closure keeping its rest-parameter list, mapped over a sequence
+		if a := s.pick(func(n *canon.Node) bool { return isSeqN(n) && len(n.L) >= 2 }); a != nil {
+			if !s.bind(fmt.Sprintf("(map (fn (& xs) xs) %s)", a.name), "map-rest-closure", false) {
+				return false
+			}
+			got := s.vals[len(s.vals)-1]
+			ref, ok := s.eval(fmt.Sprintf("(map list %s)", a.name))
+			if ok && !canon.Equal(got.snap, canon.FromGo(ref)) {
+				s.c.Violate(fw.Violation{Key: "aliasing-within-result:map", What: fmt.Sprintf("(map (fn (& xs) xs) %s) is %s but (map list %s) is %s: the argument lists of different calls share storage", a.name, canon.Render(got.snap), a.name, canon.Render(canon.FromGo(ref))), Input: strings.Join(s.log, "\n")})
+				return false
+			}
+			return true
 		}
 	case 28:
 		if st := s.pick(isSetN); st != nil {
